@@ -53,6 +53,13 @@ CLAIMS = {
             "over every repair but the seed with binding equality, and that every insertion of a derived fact is dominated "
             "by the false edge of the consistency test on (all facts + candidate). Enumeration of all maximal subsets is not decided.",
             "MIR dominance/controlling conditions, closure call structure"),
+    "C09": ("DESIGN.md §4 C09",
+            "Decides the trigger discipline and interval shape that are visible in code: every consumer notification in both "
+            "ingest paths is controlled by the strict test event-time > app_time and the clock is advanced to that time on "
+            "every such path; both paths assign content under exactly open <= t < close, select the reported window by "
+            "maximal close, consult the report strategy, and replace the active windows only afterwards; the close strategy "
+            "reports only when close <= t. Which windows `scope` opens (f64 arithmetic on width/slide) is not decided.",
+            "MIR controlling conditions (T-GUARD), sibling comparison of normalised comparisons"),
 }
 
 NA = {
